@@ -163,6 +163,29 @@ def eof_justified(prog, f, bi):
                 c = callee_of(t)
                 if c and c.get("name") == "map_err" and f.key in parent.slice_of_operand(t["a"][1], at=(pb, parent.INF))["closures"]:
                     return True, "translates the stream's own UnexpectedEof (map_err closure)"
+    # (i') a named function used only as the error mapper of `map_err` (passed as a function item, or
+    # called from a closure handed to map_err)
+    if "{closure" not in f.key:
+        refs, ok_refs = 0, 0
+        for k2, g in scope(prog).items():
+            for b2, t2 in g.calls():
+                c2 = callee_of(t2)
+                as_item = any(op_const(a) and isinstance(op_const(a).get("fn"), dict) and op_const(a)["fn"].get("def") == f.key for a in t2["a"])
+                direct = c2 and (c2.get("rdef") or c2["def"]) == f.key
+                if as_item:
+                    refs += 1
+                    if c2 and c2.get("name") == "map_err":
+                        ok_refs += 1
+                elif direct:
+                    refs += 1
+                    if "{closure" in k2:
+                        parent = prog.funcs.get(g.raw.get("parent", ""))
+                        if parent is not None and any((callee_of(tp) or {}).get("name") == "map_err" and
+                                                      k2 in parent.slice_of_operand(tp["a"][1], at=(pb, parent.INF))["closures"]
+                                                      for pb, tp in parent.calls() if len(tp["a"]) == 2):
+                            ok_refs += 1
+        if refs and refs == ok_refs:
+            return True, "error mapper used only by map_err on the stream's own error (%d uses)" % refs
     # (ii) the empty edge of a fill_buf result
     for cb, t in f.calls():
         c = callee_of(t)
